@@ -157,7 +157,7 @@ static std::vector<std::string> hist_gen(const GenArgs &ga) {
     mix = {{"new", 16}, {"compile", 26}, {"take", 9}, {"run", 8}, {"runc", 6}, {"freep", 10}, {"freec", 9},
            {"reset", 3}, {"rawalloc", rawalloc ? 12 : 0}, {"freeall", 1}, {"policy", faults ? 2 : 0}};
   } else if (P == "C16") {
-    oracles = "res,growth,heap,lsan";
+    oracles = "res,growth,heap,lsan,fd";
     static const char *codes[] = {"-", "-", "-", "emulate", "backup", "debug", "backup,emulate"};
     orc_code = codes[sw.below(7)];
     faults = sw.chance(1, 4);
@@ -1108,7 +1108,10 @@ static void hist_run(const std::vector<std::string> &plan, Child &c) {
             c.violation("determinism", ch != s.code_hash || cs != s.code_size ? "code-differs" : ah != s.asm_hash ? "listing-differs" : "result-differs",
                         strf("subject %zu (%s [%s] target %s fmask %#lx), compile #%d at history point %zu (debug level %d, region %d offset %d): %s",
                              si, s.spec.c_str(), meta.opnames.c_str(), s.target.c_str(), s.fmask, s.compiles, oi, orc_debug_get_level(), r, off, what.c_str()));
-          // recompiling after a reset gives identical bytes
+          // recompiling after a reset gives identical bytes -- also when the code object was handed out
+          // before the reset (the program then has no code object but may still carry its error text)
+          OrcCode *handed_out = nullptr;
+          if (kvu(w, "ds") & 1) { handed_out = orc_program_take_code(p); c.count("subject.reset_after_take_code"); }
           orc_program_reset(p);
           fs::begin_op({});
           int res2 = orc_program_compile_full(p, t, flags);
@@ -1118,6 +1121,7 @@ static void hist_run(const std::vector<std::string> &plan, Child &c) {
           uint64_t ch2 = code2 && code2->chunk ? fnv(code2->code, code2->code_size) : 0;
           const char *asm2 = orc_program_get_asm_code(p);
           uint64_t ah2 = asm2 ? fnv(asm2, strlen(asm2)) : 0;
+          if (handed_out) orc_code_free(handed_out);
           if (own_failure2) c.count("probe.subject_compile_itself_refused_code_memory");
           else if (res2 != res || ch2 != ch || ah2 != ah)
             c.violation("determinism", "recompile-after-reset-differs", strf("subject %zu: recompiling after orc_program_reset changed result/code/listing (%#x/%#x)", si, res, res2));
